@@ -130,6 +130,9 @@ func scanShared(c *core.Ctx) []ob {
 						}
 					}
 				}
+				if fieldRebuiltBefore(info, cc.fd, w.target, w.pos, recv, aliases) {
+					continue // the copy's field was given fresh storage first: the store goes there
+				}
 				bad = true
 				out = append(out, withProps(violOb("SHARED", fmt.Sprintf("SHARED:%s#writes(%s)", fkey, r.field), c.Rel(w.pos),
 					fmt.Sprintf("copy constructor %s stores through %s, which is memory of the receiver (%s): building a copy changes the original, and races with goroutines using it", fkey, exprString(w.target), w.how)), props...))
@@ -274,4 +277,57 @@ func init() {
 			}
 			return out
 		}})
+}
+
+// fieldRebuiltBefore reports whether the store target goes through a field `v.F` of a local struct value v that a
+// top-level statement of the function, placed before the store, has assigned a value not rooted at the receiver
+// (`cpy := eval; cpy.index = make(…); cpy.index[k] = …`): the store then lands in the fresh storage.
+func fieldRebuiltBefore(info *types.Info, fd *ast.FuncDecl, target ast.Expr, pos token.Pos, recv types.Object, aliases map[types.Object][]ast.Expr) bool {
+	// innermost selector over a plain identifier
+	var sel *ast.SelectorExpr
+	e := unparen(target)
+	for sel == nil {
+		switch x := e.(type) {
+		case *ast.IndexExpr:
+			e = unparen(x.X)
+		case *ast.StarExpr:
+			e = unparen(x.X)
+		case *ast.SliceExpr:
+			e = unparen(x.X)
+		case *ast.SelectorExpr:
+			if _, ok := unparen(x.X).(*ast.Ident); ok {
+				sel = x
+			} else {
+				e = unparen(x.X)
+			}
+		default:
+			return false
+		}
+	}
+	v := identObj(info, sel.X)
+	if v == nil || v == recv {
+		return false
+	}
+	for _, st := range fd.Body.List {
+		as, ok := st.(*ast.AssignStmt)
+		if !ok || as.Pos() >= pos || len(as.Lhs) != len(as.Rhs) {
+			continue
+		}
+		for i, l := range as.Lhs {
+			ls, ok := unparen(l).(*ast.SelectorExpr)
+			if !ok || ls.Sel.Name != sel.Sel.Name || identObj(info, ls.X) != v {
+				continue
+			}
+			fresh := true
+			for _, r := range rootsOf(info, as.Rhs[i], aliases, 0) {
+				if r.obj == recv {
+					fresh = false
+				}
+			}
+			if fresh {
+				return true
+			}
+		}
+	}
+	return false
 }
